@@ -23,8 +23,9 @@ RangeOK(cls, size, lo, len) ==
                  [] cls = "decoy_head" -> lo >= 1
                  [] OTHER -> FALSE
 
-\* slices of piece k incl. zero-length files (the fixed _map_pieces attaches them to a piece)
-PieceFiles(sizes, k) == RefSlices(sizes, P, k)
+\* the piece map as the (repaired) _map_pieces builds it: zero-length files are attached to a piece
+MP == INSTANCE MapPieces WITH Variant <- "fixed", PieceLens <- {}, st <- 0
+PieceMap(sz) == LET m == MP!MapAll(sz, P) IN [k \in DOMAIN m |-> MP!Ranges(sz, m[k])]
 
 RECURSIVE Dfs(_, _, _, _)
 \* _find_matches over slices[j..]: <<found, choices>> with choices = <<file, candidate index>>*
@@ -46,6 +47,28 @@ Dfs(sizes, cands, slices, j) ==
 Copy(dest, f, k, destsize, size) ==
     IF dest[f] = 0 \/ destsize[f] < size THEN [dest EXCEPT ![f] = k] ELSE dest
 
+\* one iteration of `for piece_node in self.piece_nodes` of _match_v1, as a pure function:
+\* <<dest, dsize, copied>> after looking at piece k
+PieceStep(sz, cd, pm, k, d, ds, cp) ==
+    LET sl == pm[k] IN
+    IF Len(sl) = 1 /\ sl[1][1] \in cp THEN <<d, ds, cp>>
+    ELSE LET r == Dfs(sz, cd, sl, 1) IN
+         IF r[1]
+         THEN LET RECURSIVE Place(_, _, _)
+                  Place(d1, ds1, j) == IF j > Len(r[2]) THEN <<d1, ds1>>
+                                       ELSE LET f == r[2][j][1] c == r[2][j][2]
+                                                d2 == Copy(d1, f, c, ds1, sz[f])
+                                            IN Place(d2, [ds1 EXCEPT ![f] = sz[f]], j + 1)
+                  pl == Place(d, ds, 1)
+              IN <<pl[1], pl[2], cp \cup {r[2][j][1] : j \in DOMAIN r[2]}>>
+         ELSE <<d, ds, cp>>
+RECURSIVE MatchFrom(_, _, _, _, _, _, _)
+MatchFrom(sz, cd, pm, k, d, ds, cp) ==
+    IF k > Len(pm) THEN d
+    ELSE LET t == PieceStep(sz, cd, pm, k, d, ds, cp) IN MatchFrom(sz, cd, pm, k + 1, t[1], t[2], t[3])
+\* the whole run on an empty destination: file -> index of the candidate placed (0 = none)
+MatchAll(sz, cd) == MatchFrom(sz, cd, PieceMap(sz), 1, [f \in DOMAIN sz |-> 0], [f \in DOMAIN sz |-> 0], {})
+
 VARIABLES sizes, cands, dest, dsize, copied, piece, pc
 vars == <<sizes, cands, dest, dsize, copied, piece, pc>>
 NP == CeilDiv(SumSeq(sizes), P)
@@ -60,29 +83,18 @@ Init == \E n \in 1 .. MaxFiles : \E sz \in [1 .. n -> 0 .. MaxSize] : \E cd \in 
           /\ copied = {} /\ piece = 1 /\ pc = "run"
 Step == /\ pc = "run"
         /\ IF piece > NP THEN pc' = "done" /\ UNCHANGED <<dest, dsize, copied, piece>>
-           ELSE LET sl == PieceFiles(sizes, piece) IN
-                IF Len(sl) = 1 /\ sl[1][1] \in copied
-                THEN piece' = piece + 1 /\ UNCHANGED <<dest, dsize, copied, pc>>
-                ELSE LET r == Dfs(sizes, cands, sl, 1) IN
-                     IF r[1]
-                     THEN LET RECURSIVE Place(_, _, _)
-                              Place(d, ds, j) == IF j > Len(r[2]) THEN <<d, ds>>
-                                                 ELSE LET f == r[2][j][1] k == r[2][j][2]
-                                                          d2 == Copy(d, f, k, ds, sizes[f])
-                                                      IN Place(d2, [ds EXCEPT ![f] = sizes[f]], j + 1)
-                              pl == Place(dest, dsize, 1)
-                          IN /\ dest' = pl[1] /\ dsize' = pl[2]
-                             /\ copied' = copied \cup {r[2][j][1] : j \in DOMAIN r[2]}
-                             /\ piece' = piece + 1 /\ pc' = pc
-                     ELSE piece' = piece + 1 /\ UNCHANGED <<dest, dsize, copied, pc>>
+           ELSE LET t == PieceStep(sizes, cands, PieceMap(sizes), piece, dest, dsize, copied)
+                IN dest' = t[1] /\ dsize' = t[2] /\ copied' = t[3] /\ piece' = piece + 1 /\ pc' = pc
         /\ UNCHANGED <<sizes, cands>>
 Spec == Init /\ [][Step]_vars
 
+\* the closure agrees with the step-by-step run (binds MatchAll to Step)
+ClosureAgrees == pc = "done" => dest = MatchAll(sizes, cands)
 ClassOf(f) == IF dest[f] = 0 THEN "absent" ELSE cands[f][dest[f]]
 \* C14: a candidate none of whose bytes verify is never placed
 Safe == \A f \in DOMAIN sizes : (sizes[f] > 0 /\ dest[f] # 0) => ClassOf(f) # "decoy_all"
 \* C13: complete whenever an intact copy of every file is available
 CompleteRun == pc = "done" =>
                ((\A f \in DOMAIN sizes : \E k \in DOMAIN cands[f] : cands[f][k] = "intact")
-                  => \A f \in DOMAIN sizes : sizes[f] > 0 => ClassOf(f) = "intact")
+                  => \A f \in DOMAIN sizes : ClassOf(f) = "intact" \/ (sizes[f] = 0 /\ dest[f] # 0))
 =============================================================================
